@@ -122,6 +122,9 @@ def run(ctx):
         rows, _r = G.rand_tableau(rng, n, 0)
         if rng.random() < 0.5:   # computational-ish states: few rotations
             rows = G.map_to_state_ops(G.rand_map_ops(rng, n, depth=rng.randrange(0, 3)))
+        elif rng.random() < 0.5:  # basis states written with product generators (Z0Z1, -Z1, ...): all stabilizers diagonal, signs mixed
+            rows = G.rand_css_tableau(rng, n, 'Z')
+            ctx.count('getprob:diagonal-generators')
         st = impl.state(rows, 0)
         rho = O.dense_state(rows[0:n], n)
         tot = 0.0
